@@ -89,7 +89,8 @@ pub fn verify(code: &Bytecode, t: &Table) -> VerifyReport {
     // number of globals the program declares = highest SetGlobal index + 1
     let n_globals = ins.iter().filter(|i| i.name == "SetGlobal").map(|i| i.args[0] + 1).max().unwrap_or(0);
     // (2) code units: the top level and every function constant
-    let mut units: Vec<(usize, i64, bool)> = vec![(0, 0, false)]; // (entry, locals, is_function)
+    // the top-level unit starts where this program starts (code of earlier programs of the same compiler precedes it)
+    let mut units: Vec<(usize, i64, bool)> = vec![(code.start, 0, false)]; // (entry, locals, is_function)
     for c in &code.constants {
         if c.tag() == Type::Function {
             let [ip, nl] = c.as_function();
